@@ -95,7 +95,7 @@ FAMILIES["all_annotscale"] = fam(av=dict(minNodes=2, created=[3, 4], nodel=[Fals
                                  cfg=dict(min=0, max=3, slow=1, fast=1), KC=4, KM=4, AsgMin0=0, emit=1)
 FAMILIES["all_annot"] = fam(av=dict(minNodes=1, cordoned=[False], force=[False, True], nodel=[False, True], taint=[-1, 1, 2, 3], run=[0, 1], extra=[0], lost=[False]),
                             FaultOps=[], MaxFaults=0, cfg=dict(min=0), KC=4, KM=4, AsgMin0=0, emit=1)
-FAMILIES["all_scale"] = fam(av=dict(minNodes=0, created=[3, 4], cordoned=[False, True], force=[False, True], taint=[-1, 0, 2], run=[0, 1, 2], pend=[0, 1, 3], extra=[0, 1], lock=[-1, 0, 1, 2], delta=[0, 1]),
+FAMILIES["all_scale"] = fam(av=dict(minNodes=0, created=[3, 4], cordoned=[False, True], force=[False, True], taint=[-1, 0, 2], run=[0, 1, 2], pend=[0, 1, 3], extra=[0, 1], lock=[-1, 1, 2], delta=[0, 1]),
                             FaultOps=["get", "update", "set_desired"], MaxFaults=1, cfg=dict(min=1, max=3), AsgMax0=4, MaxPend=3)
 FAMILIES["all_dry"] = fam(av=dict(minNodes=0, created=[3, 4], cordoned=[False, True], force=[False, True], taint=[-1, 0, 3], run=[0, 1, 2], pend=[0, 1, 3], extra=[0, 1], lock=[-1, 1]),
                           cfg=dict(min=1, max=3, dry=True), AsgMax0=4, MaxPend=3)
